@@ -25,7 +25,7 @@ def run(ctx):
     symrun.run(ctx, kernels=KERNELS)
     thorough = ctx.tier == "thorough"
     exprun.run_property(ctx, "C:minmax", "C05", ops=OPS,
-                        classes=("random", "boundary", "special", "small", "extreme", "onesign") if thorough else ("random", "special", "extreme", "onesign"),
+                        classes=("random", "boundary", "special", "small", "extreme", "onesign", "lowhalf") if thorough else ("random", "special", "extreme", "onesign", "lowhalf"),
                         lens_fn=exprun.full_lens if thorough else exprun.quick_lens,
                         places=("R", "L", "3") if thorough else ("R",), seed_tag=5)
     entries = [(i, s) for i, s in enumerate(facts.get("safe_entries", []))
